@@ -256,7 +256,20 @@ func (c *Ctx) ruleFinaliseGuards() {
 	// pruned list flow
 	delUnf, delTrie := false, false
 	if prune != nil {
+		// the pruned list may be handed to a helper of the package: then the helper's parameter is the list
+		scan, source := f, ssa.Value(prune)
 		eachInstr(f, func(_ *ssa.BasicBlock, _ int, in ssa.Instruction) {
+			call, ok := in.(*ssa.Call)
+			if !ok || call.Call.StaticCallee() == nil || call.Call.StaticCallee().Pkg != f.Pkg || len(call.Call.StaticCallee().Blocks) == 0 {
+				return
+			}
+			for i, a := range call.Call.Args {
+				if a == ssa.Value(prune) && i < len(call.Call.StaticCallee().Params) {
+					scan, source = call.Call.StaticCallee(), call.Call.StaticCallee().Params[i]
+				}
+			}
+		})
+		eachInstr(scan, func(_ *ssa.BasicBlock, _ int, in ssa.Instruction) {
 			call, ok := in.(*ssa.Call)
 			if !ok || call.Call.StaticCallee() == nil || call.Call.StaticCallee().Name() != "delete" {
 				return
@@ -264,7 +277,7 @@ func (c *Ctx) ruleFinaliseGuards() {
 			recvT := call.Call.StaticCallee().Signature.Recv().Type().String()
 			fromPruned := false
 			for v := range backwardSlice(call.Call.Args[1], nil) {
-				if v == ssa.Value(prune) {
+				if v == source {
 					fromPruned = true
 				}
 			}
